@@ -399,7 +399,7 @@ pub fn c08() -> Outcome {
 
 pub fn run(prop: &str) -> Option<Outcome> {
     Some(match prop { "C01" => c01(), "C03" => c03(), "C05" => c05(), "C08" => c08(), "C12" => c12(), "C14" => c14(),
-        "C04" => crate::bounded2::c04(), "C09" => crate::bounded2::c09(), "C10" => crate::bounded2::c10(), "C11" => crate::bounded2::c11(),
+        "C02" => crate::bounded2::c02(), "C04" => crate::bounded2::c04(), "C09" => crate::bounded2::c09(), "C10" => crate::bounded2::c10(), "C11" => crate::bounded2::c11(),
         "C13" => crate::bounded2::c13(), "C15" => crate::bounded2::c15(), "C16" => crate::bounded2::c16(),
         "C17" => crate::bounded3::c17(), "C19" => crate::bounded3::c19(), _ => return None })
 }
